@@ -20,7 +20,7 @@ SHAPE_METHODS = {"reshape", "ravel", "flatten", "squeeze", "copy", "tolist"}
 SHAPE_FUNCS = {"np.asarray", "np.array", "float", "np.squeeze", "np.ravel", "sc.promotetoarray"}
 
 
-PURE_FUNCS = {"exp": "exp", "np.exp": "exp", "math.exp": "exp", "log": "log", "np.log": "log", "np.maximum": "maximum", "np.minimum": "minimum", "max": "maximum", "min": "minimum", "np.cumsum": "cumsum", "np.sum": "sum", "sum": "sum", "abs": "abs", "np.abs": "abs", "np.product": "prod", "np.prod": "prod", "np.argsort": "argsort", "np.sqrt": "sqrt", "sqrt": "sqrt"}
+PURE_FUNCS = {"exp": "exp", "np.exp": "exp", "math.exp": "exp", "log": "log", "np.log": "log", "np.maximum": "maximum", "np.minimum": "minimum", "max": "maximum", "min": "minimum", "np.cumsum": "cumsum", "np.sum": "sum", "sum": "sum", "abs": "abs", "np.abs": "abs", "np.product": "prod", "np.prod": "prod", "np.argsort": "argsort", "np.sqrt": "sqrt", "sqrt": "sqrt", "np.clip": "clip"}
 COMMUTATIVE = {"maximum", "minimum"}
 
 
